@@ -184,6 +184,19 @@ func checkC15(e *Env) {
 			}
 			// one unknown token as large as the buffers of the standard library's scanners and
 			// readers, at the start, in the middle and at the end of a sentence of acceptable count
+			// word counts that are congruent to an acceptable count modulo 2^8 and 2^16 (all list
+			// words; the only defect is the count)
+			rc := rng.New(e.Seed, "C15-bigcount-"+itoa(lang))
+			for _, n := range []int{268, 271, 274, 277, 280, 524, 536, 65548, 65560} {
+				if n > 1000 && lang%5 != 0 {
+					continue
+				}
+				t := make([]string, n)
+				for i := range t {
+					t[i] = m.List[lang][rc.Intn(2048)]
+				}
+				send(c15exp{lang: lang, s: strings.Join(t, " "), defect: "count", n: n, sub: "congruent-to-an-acceptable-count"})
+			}
 			// a list word with a combining mark in FRONT of it (right after the separator)
 			rm := rng.New(e.Seed, "C15-markfirst-"+itoa(lang))
 			for mi, mark := range []string{"\u0308", "\u0301", "\u3099", "\u0323"} {
